@@ -8,7 +8,7 @@ Definition wid := (nat * nat)%type.                         (* (0, n) = Explicit
 Definition wnode := (wid * nat)%type.
 Definition wlab := (nat * list nat * bool)%type.
 Definition wedge := (wid * wlab * list wnode)%type.
-Definition wgraph := (list wnode * list wedge * list wnode * list wlab)%type.
+Definition wgraph := (list wnode * list wedge * list wnode * list wlab * list nat)%type.
 Definition wname := (nat * list wid * wid)%type.            (* (0, [], (0, j)) = NStart j; (1, p, i) = NInst p i *)
 Inductive wtree := WT (r : wlab * wgraph) (a : list (wnode * nat)) (cs : list (wedge * wtree)).
 
@@ -17,7 +17,7 @@ Definition d_node (w : wnode) : node := mkNode (d_id (fst w)) (snd w).
 Definition d_lab (w : wlab) : elabel := let '(n, t, b) := w in mkLab n t b.
 Definition d_edge (w : wedge) : edge := let '(i, l, ns) := w in mkEdge (d_id i) (d_lab l) (map d_node ns).
 Definition d_graph (w : wgraph) : graph :=
-  let '(ns, es, ext, ls) := w in mkGraph (map d_node ns) (map d_edge es) (map d_node ext) (map d_lab ls).
+  let '(ns, es, ext, ls, nls) := w in mkGraph (map d_node ns) (map d_edge es) (map d_node ext) (map d_lab ls) nls.
 Definition d_name (w : wname) : name :=
   let '(tag, p, i) := w in match tag with 0 => NStart (snd i) | _ => NInst (map d_id p) (d_id i) end.
 Fixpoint d_tree (w : wtree) : dtree :=
@@ -28,15 +28,17 @@ Fixpoint d_tree (w : wtree) : dtree :=
 
 Definition graph_eqb (a b : graph) : bool :=
   list_eqb node_eqb (g_nodes a) (g_nodes b) && list_eqb edge_eqb (g_edges a) (g_edges b)
-  && list_eqb node_eqb (g_ext a) (g_ext b) && list_eqb elabel_eqb (g_elabs a) (g_elabs b).
+  && list_eqb node_eqb (g_ext a) (g_ext b) && list_eqb elabel_eqb (g_elabs a) (g_elabs b)
+  && list_eqb Nat.eqb (g_nlabs a) (g_nlabs b).
 Definition graph_permb (a b : graph) : bool :=
   perm_eqb node_eqb (g_nodes a) (g_nodes b) && perm_eqb edge_eqb (g_edges a) (g_edges b)
-  && list_eqb node_eqb (g_ext a) (g_ext b) && perm_eqb elabel_eqb (g_elabs a) (g_elabs b).
+  && list_eqb node_eqb (g_ext a) (g_ext b) && perm_eqb elabel_eqb (g_elabs a) (g_elabs b)
+  && perm_eqb Nat.eqb (g_nlabs a) (g_nlabs b).
 Definition pair_eqb {A B} (ea : A -> A -> bool) (eb : B -> B -> bool) (x y : A * B) : bool :=
   ea (fst x) (fst y) && eb (snd x) (snd y).
 
 Definition err_code (k : err) : nat :=
-  match k with ValueErr => 1 | KeyErr => 2 | _ => 3 end.
+  match k with ValueErr => 1 | KeyErr => 2 | RuntimeErr => 4 | _ => 3 end.
 
 (** all labels occurring in a graph / tree *)
 Definition graph_labels (g : graph) : list elabel := g_elabs g ++ map e_label (g_edges g).
@@ -47,10 +49,12 @@ Fixpoint tree_labels (t : dtree) : list elabel :=
 
 (** ** one replace_edge call.
     input: host, counter, edge, replacement, (status, result graph, node_map, edge_map)
-    status: 0 returned, 1 ValueError, 2 KeyError, 3 other exception.
+    status: 0 returned, 1 ValueError, 2 KeyError, 4 RuntimeError, 3 other exception.
     verdicts: 0 ok
       1 the verified oracle [replace_ok] rejects the implementation's result (well-formed input)
       2 wrong-type replacement / absent edge not rejected with ValueError, or graph changed
+      3 the call raised although host, edge and replacement are well-formed and the type fits
+        (C15_replace_spec: it must return a result satisfying the specification)
       10 result differs from the model's (not even up to the order of the dicts)
       11 model raised, implementation raised the same, but the graphs left behind differ
       12 model returned, implementation raised;  13 model raised, implementation returned / other error
@@ -71,7 +75,7 @@ Definition replace_check
                  && functionalb (graph_labels host ++ graph_labels repl) in
     match replace_edge_model host nx e repl with
     | (gm, _, Ok (nmm, emm)) =>
-      if negb (Nat.eqb status 0) then 12
+      if negb (Nat.eqb status 0) then (if guard then 3 else 12)
       else if guard && negb (replace_ok host e repl res nm em) then 1
       else if graph_eqb gm res && list_eqb (pair_eqb node_eqb node_eqb) nmm nm
               && list_eqb (pair_eqb edge_eqb edge_eqb) emm em then 0
@@ -90,9 +94,44 @@ Definition replace_check
         let newe g := map e_label (filter (fun e => negb (id_below nx (e_id e))) (g_edges g)) in
         if list_eqb node_eqb (oldn gm) (oldn res) && list_eqb edge_eqb (olde gm) (olde res)
            && list_eqb node_eqb (g_ext gm) (g_ext res) && perm_eqb elabel_eqb (g_elabs gm) (g_elabs res)
+           && perm_eqb Nat.eqb (g_nlabs gm) (g_nlabs res)
            && perm_eqb Nat.eqb (newn gm) (newn res) && perm_eqb elabel_eqb (newe gm) (newe res)
         then 20 else 11
     end.
+
+(** ** replace_edge(g, e, g): the replacement is the host object itself.
+    input: host (= replacement, state before the call), counter, edge, (status, result graph, node_map, edge_map).
+    The specification is the same one: [replace_ok host e host ...] with the replacement read
+    BEFORE the call (what the caller passed).
+    verdicts: 0 returned a result that satisfies the specification and equals the aliasing model
+      1 well-formed, well-typed call whose outcome violates the specification (raised, or the
+        oracle [replace_ok] rejects the result) -- and the outcome is exactly the one of
+        [replace_edge_alias_model] (the defect class "replacement is host", C15_replace_alias_refuted)
+      2 wrong type / absent edge not rejected with ValueError leaving the graph unchanged
+      4 as 1 but the outcome ALSO differs from the aliasing model
+      10 outside the guard / specification satisfied, and the outcome differs from the aliasing model *)
+Definition alias_check
+  (x : wgraph * nat * wedge * (nat * wgraph * list (wnode * wnode) * list (wedge * wedge))) : nat :=
+  let '(whost, nx, we, (status, wres, wnm, wem)) := x in
+  let host := d_graph whost in let e := d_edge we in let res := d_graph wres in
+  let nm := map (fun p => (d_node (fst p), d_node (snd p))) wnm in
+  let em := map (fun p => (d_edge (fst p), d_edge (snd p))) wem in
+  let typed := list_eqb Nat.eqb (l_type (e_label e)) (gtype host) in
+  let present := has_edge_id host (e_id e) in
+  if negb (typed && present) && negb (Nat.eqb status 1 && graph_eqb res host) then 2
+  else
+    let guard := typed && present && wf_graphb host && belowb nx host && nodupb node_eqb (g_ext host)
+                 && memb edge_eqb (g_edges host) e && functionalb (graph_labels host) in
+    let spec_ok := Nat.eqb status 0 && replace_ok host e host res nm em in
+    let agrees :=
+      match replace_edge_alias_model host nx e with
+      | (gm, _, Ok (nmm, emm)) =>
+        Nat.eqb status 0 && graph_eqb gm res && list_eqb (pair_eqb node_eqb node_eqb) nmm nm
+        && list_eqb (pair_eqb edge_eqb edge_eqb) emm em
+      | (gm, _, Err k) => Nat.eqb status (err_code k) && graph_eqb gm res
+      end in
+    if guard && negb spec_ok then (if agrees then 1 else 4)
+    else if agrees then 0 else 10.
 
 (** ** start_graph.  input: start label, counter, the implementation's graph (fresh ids numbered
     in order of appearance from the counter).
@@ -165,7 +204,8 @@ Definition canon_edge (g : graph) (j : nat) (e : edge) : edge :=
 Fixpoint canon_edges (g : graph) (j : nat) (es : list edge) : list edge :=
   match es with [] => [] | e :: es => canon_edge g j e :: canon_edges g (S j) es end.
 Definition canon_graph (g : graph) : graph :=
-  mkGraph (map (canon_node g) (g_nodes g)) (canon_edges g 0 (g_edges g)) (map (canon_node g) (g_ext g)) (g_elabs g).
+  mkGraph (map (canon_node g) (g_nodes g)) (canon_edges g 0 (g_edges g)) (map (canon_node g) (g_ext g)) (g_elabs g)
+          (g_nlabs g).
 Definition canon_asst (g : graph) (a : asst_t) : asst_t := map (fun p => (canon_node g (fst p), snd p)) a.
 
 Definition nv_eqb (a b : name * nat) : bool := name_eqb (fst a) (fst b) && Nat.eqb (snd a) (snd b).
@@ -176,7 +216,9 @@ Definition named_asst (nn : list (node * name)) (a : asst_t) : list (name * nat)
     weight table, product of the factor weights computed by the implementation's factors.
     verdicts: 0 ok; 1 graph not isomorphic to [derived_graph]; 2 assignment not total on the
     graph's nodes; 3 weight product differs from the product of the rule-instance
-    weights; 4 tree not well-formed (harness bug); 10 differs from derive_model; 11 model raised;
+    weights; 4 tree not well-formed (harness bug); 5 the assignment has a key that is not a node of
+    the graph (C15_derive_assignment_exact: defined on the nodes and nowhere else);
+    10 differs from derive_model; 11 model raised;
     12 some value of the assignment is not the value the denotational [derived_asst] gives to
     the name of that node (the Prop proved of the model in C15_derive_assignment);
     20 equal to the model up to dict order *)
@@ -195,6 +237,7 @@ Definition derive_check
     let w := fun (l : elabel) vs => wlookup tab (l_name l) vs in
     if negb (same_upto_naming g nn en d) then 1
     else if negb (forallb (fun v => amem node_eqb a v) (g_nodes g)) then 2
+    else if negb (forallb (fun vy => memb node_eqb (g_nodes g) (fst vy)) a) then 5
     else if negb (nodupb node_eqb (map fst a)
                   && forallb (fun vy => match aget node_eqb nn (fst vy) with
                                         | Some x => memb nv_eqb (derived_asst t) (x, snd vy)
